@@ -22,6 +22,8 @@ CLAIMED = {
    text="For element-level roots TLC enumerates every split of every item sequence into attributes interleaved with empty, bare, name-value, non-meta and unrelated attributes and checks that the result equals that of the single merged list and that the forwarded indices are exactly the selected ones in order; each behaviour is executed by the real derived parser (value, errors, forwarded attributes token-for-token)."),
  "C09": dict(engine="Receiver", design_ref="4.6, 5/C09", technique="TLA+ spec (Receiver.tla: enum receivers) model-checked with TLC against the declarative variant selection (ReceiverProps.tla); replayed on real derived enums",
    text="TLC checks for every corpus enum (unit/newtype/struct variants, rename, rename_all, skip, word, from_word, from_none) and every input form (word, string, other literals, list of 0..2 items) that the machine selects exactly the declaratively defined variant or reports the declaratively defined mistake; each behaviour is executed by the real derived enum."),
+ "C14": dict(engine="Maps", design_ref="4.5, 5/C14", technique="TLA+ spec of the map conversion loop (Maps.tla) model-checked with TLC against the declarative verdict / entries / bag of mistakes; every behaviour replayed on the five real map instantiations x five value types",
+   text="TLC enumerates every item list within bounds for String/Ident/Path keys and checks the loop machine against the declarative reading (succeeds iff all named, keys pairwise distinct after conversion, all values convert; one entry per item; otherwise one leaf per literal, repeat, bad key and bad value under its key); each list is executed on the real HashMap/BTreeMap conversions and hash vs ordered compared."),
 }
 
 NOT_YET = "check not built yet (planned, see DESIGN.md section 5)"
